@@ -80,5 +80,8 @@ package markup
 //@   requires ps != nil && forall(i, 0 <= i && i < len(ps.accessors), ps.accessors[i] != nil)
 //@   ensures [C14] #opt-out implies(anyOptOut(ps.accessors, 0), result.Title == "" && result.Type == "" && result.URL == "" && result.Description == "" && result.Publisher == "" && result.Copyright == "" && result.Author == "" && len(result.Images) == 0 && result.Article.PublishedTime == "" && result.Article.ModifiedTime == "" && result.Article.ExpirationTime == "" && result.Article.Section == "" && len(result.Article.Authors) == 0)
 //@   ensures [C14] #fields implies(!anyOptOut(ps.accessors, 0), result.Title == firstTitle(ps.accessors, 0) && result.Type == firstType(ps.accessors, 0) && result.URL == firstURL(ps.accessors, 0) && result.Description == firstDescription(ps.accessors, 0) && result.Publisher == firstPublisher(ps.accessors, 0) && result.Copyright == firstCopyright(ps.accessors, 0) && result.Author == firstAuthor(ps.accessors, 0))
-//@   ensures [C14] #article implies(!anyOptOut(ps.accessors, 0) && firstArticle(ps.accessors, 0) != 0, result.Article.Section == old(as(firstArticle(ps.accessors, 0), *data.MarkupArticle).Section) && result.Article.PublishedTime == old(as(firstArticle(ps.accessors, 0), *data.MarkupArticle).PublishedTime) && result.Article.ModifiedTime == old(as(firstArticle(ps.accessors, 0), *data.MarkupArticle).ModifiedTime) && result.Article.ExpirationTime == old(as(firstArticle(ps.accessors, 0), *data.MarkupArticle).ExpirationTime))
+//@   ensures [C14] #article-section implies(!anyOptOut(ps.accessors, 0) && firstArticle(ps.accessors, 0) != 0, result.Article.Section == old(as(firstArticle(ps.accessors, 0), *data.MarkupArticle).Section))
+//@   ensures [C14] #article-published implies(!anyOptOut(ps.accessors, 0) && firstArticle(ps.accessors, 0) != 0, result.Article.PublishedTime == old(as(firstArticle(ps.accessors, 0), *data.MarkupArticle).PublishedTime))
+//@   ensures [C14] #article-modified implies(!anyOptOut(ps.accessors, 0) && firstArticle(ps.accessors, 0) != 0, result.Article.ModifiedTime == old(as(firstArticle(ps.accessors, 0), *data.MarkupArticle).ModifiedTime))
+//@   ensures [C14] #article-expiration implies(!anyOptOut(ps.accessors, 0) && firstArticle(ps.accessors, 0) != 0, result.Article.ExpirationTime == old(as(firstArticle(ps.accessors, 0), *data.MarkupArticle).ExpirationTime))
 //@   ensures [C14] #no-article implies(!anyOptOut(ps.accessors, 0) && firstArticle(ps.accessors, 0) == 0, result.Article.Section == "" && result.Article.PublishedTime == "" && len(result.Article.Authors) == 0)
